@@ -136,6 +136,34 @@ theorem mwOnRecv_success_orbiter {wr : Wiring} {φ : Faults} {o : OrbState} {c0 
               obtain ⟨c3, o'⟩ := r
               exact ⟨c1, c2, c3, o', rfl, hw, hp, by simp⟩
 
+/-- A success acknowledgement comes from exactly one of two paths. -/
+theorem mwOnRecv_success_cases {wr : Wiring} {φ : Faults} {o : OrbState} {c0 : Ctx} {pkt : Packet}
+    (hs : (mwOnRecv wr φ o c0 pkt).ack.isSuccess = true) :
+    (adaptPacket wr pkt = .ok .notOrbiter ∧ ∃ c, ics20Recv wr.cfg c0 pkt = .ok c ∧ mwOnRecv wr φ o c0 pkt = { ack := .success, ctx := c, orb := o }) ∨
+    (∃ t p, adaptPacket wr pkt = .ok (.orbiter t p)) := by
+  unfold mwOnRecv at hs ⊢
+  split at hs
+  · simp [Ack.isSuccess] at hs
+  · split at hs
+    · simp [Ack.isSuccess] at hs
+    · split at hs
+      · simp [Ack.isSuccess] at hs
+      · rename_i h1 h2 h3
+        simp only [h1, h2, h3, Bool.false_eq_true, ↓reduceIte] at hs ⊢
+        cases ha : adaptPacket wr pkt with
+        | err e => simp [ha, Ack.isSuccess] at hs
+        | panic e => simp [ha, Ack.isSuccess] at hs
+        | ok r =>
+          cases r with
+          | orbiter t p => exact Or.inr ⟨t, p, rfl⟩
+          | notOrbiter =>
+            left
+            simp only [ha] at hs ⊢
+            cases hi : ics20Recv wr.cfg c0 pkt with
+            | err e => simp [hi, Ack.isSuccess] at hs
+            | panic e => simp [hi, Ack.isSuccess] at hs
+            | ok c => exact ⟨trivial, c, rfl, by simp⟩
+
 theorem stackOnRecv_success {wr : Wiring} {φ : Faults} {o : OrbState} {c0 : Ctx} {pkt : Packet}
     (hs : (stackOnRecv wr φ o c0 pkt).ack.isSuccess = true) :
     stackOnRecv wr φ o c0 pkt = mwOnRecv wr φ o c0 pkt := by
